@@ -37,6 +37,7 @@ import (
 	"go/parser"
 	"go/token"
 	"net"
+	"sync"
 	"os"
 	"path/filepath"
 	"reflect"
@@ -166,6 +167,12 @@ var (
 
 // roGenValue builds a value of type t from the generator; ok=false when the
 // type cannot be synthesised (the method or constructor is then skipped and tagged).
+// roVendorDecoder is a caller-supplied decoder of the vendor-specific option.
+type roVendorDecoder struct{ data []byte }
+
+func (d *roVendorDecoder) FromBytes(b []byte) error { d.data = append([]byte(nil), b...); return nil }
+func (d *roVendorDecoder) String() string            { return "acme(" + hx(d.data) + ")" }
+
 func roGenValue(t reflect.Type, r *Rng, depth int) (reflect.Value, bool) {
 	switch t {
 	case tIP:
@@ -178,7 +185,13 @@ func roGenValue(t reflect.Type, r *Rng, depth int) (reflect.Value, bool) {
 		var c dhcpv4.OptionCode = dhcpv4.GenericOptionCode(r.Pick([]int{1, 3, 6, 12, 15, 43, 51, 53, 55, 60, 61, 82, 119, 121, 124, 224, 255, r.Range(0, 255)}))
 		return reflect.ValueOf(&c).Elem(), true
 	case tV4Decoder:
-		return reflect.Zero(t), true
+		// SummaryWithVendor / Options.Summary take the caller's decoder for option 43: nil
+		// or a working one (seeded change C20-14: a decode memo keyed without the decoder,
+		// so that one call with a decoder changed what the niladic Summary printed later)
+		if r.Bool() {
+			return reflect.Zero(t), true
+		}
+		return reflect.ValueOf(&roVendorDecoder{}).Convert(t), true
 	case tV4Option:
 		return reflect.ValueOf(dhcpv4.OptGeneric(dhcpv4.GenericOptionCode(r.Range(1, 254)), r.Bytes(r.Range(0, 12)))), true
 	case tLabelsPtr:
@@ -963,6 +976,60 @@ func oracleC20(r *Rng, n int, thorough bool, seeds []string) *OracleResult {
 		if len(toks) == 3 && toks[0] == "c20" {
 			if st, err := strconv.ParseUint(toks[2], 10, 64); err == nil {
 				rr.checkRoot(toks[1], st)
+			}
+		}
+	}
+	// "any number of times and in any order" also means from several goroutines at once -
+	// server handlers with a debug logger print different packets concurrently: every
+	// goroutine prints ITS OWN value, which nobody else touches, and must get what a
+	// sequential call gave (seeded change C20-13: package-level decoder instances
+	// behind Summary, correct for any sequential caller)
+	{
+		const workers, rounds = 8, 1500
+		rr := NewRng(r.U64())
+		var vals []interface{ Summary() string }
+		for w := 0; w < workers; w++ {
+			p := genPkt4(rr, true)
+			p.UpdateOption(dhcpv4.OptRouter(net.IP{10, 0, byte(w), 1}))
+			p.UpdateOption(dhcpv4.OptDNS(net.IP{10, 0, byte(w), 53}, net.IP{10, 1, byte(w), 53}))
+			p.UpdateOption(dhcpv4.OptClasslessStaticRoute(&dhcpv4.Route{Dest: &net.IPNet{IP: net.IP{10, byte(w), 0, 0}, Mask: net.CIDRMask(16, 32)}, Router: net.IP{10, 0, byte(w), 1}}))
+			p.UpdateOption(dhcpv4.OptParameterRequestList(dhcpv4.OptionRouter, dhcpv4.GenericOptionCode(uint8(w+1))))
+			p.UpdateOption(dhcpv4.OptGeneric(dhcpv4.OptionVendorSpecificInformation, []byte{byte(w), 1, 2}))
+			vals = append(vals, p)
+			if m, ok := genMsg6(rr, 1, false).(*dhcpv6.Message); ok {
+				vals = append(vals, m)
+			}
+		}
+		want := make([]string, len(vals))
+		for i, v := range vals {
+			want[i] = v.Summary()
+		}
+		bad := make([]string, len(vals))
+		var wg sync.WaitGroup
+		for i, v := range vals {
+			wg.Add(1)
+			go func(i int, v interface{ Summary() string }) {
+				defer wg.Done()
+				defer func() {
+					if e := recover(); e != nil {
+						bad[i] = fmt.Sprint("Summary panicked under concurrent printing: ", e)
+					}
+				}()
+				for k := 0; k < rounds; k++ {
+					if got := v.Summary(); got != want[i] {
+						bad[i] = "Summary() of a value nobody else touches returned " + firstDiff(want[i], got) + " while other goroutines printed other values"
+						return
+					}
+				}
+			}(i, v)
+		}
+		wg.Wait()
+		res.Evaluations++
+		res.Tags["concurrent-printing"]++
+		for i, b := range bad {
+			if b != "" {
+				res.fail(Failure{Oracle: "c20", Input: fmt.Sprintf("c20 concurrent-printing value %d of %d (%T)", i, len(vals), vals[i]), Class: "concurrent-printing", What: b})
+				break
 			}
 		}
 	}
